@@ -279,6 +279,41 @@ def gen_eq_cases(rng, tier):
         ps = list(perturbations(a, tag))
         rel, b = rng.choice(ps)
         yield {"op": "eq", "a": a, "b": b, "rel": rel}
+    # long values: a difference far from the start (same length), in the text of every child kind that takes free text and in
+    # every free attribute of a message and of a child
+    for tag, (cls, base, optional, child, vkind) in MSGS.items():
+        if child is None or PARTS[child][2] != "free":
+            continue
+        for length in (65, 80, 300, 5000 if tier == "thorough" else 1000):
+            for pos in (length - 1, length // 2, 64 if length > 64 else 0, 0):
+                text = ("QUJD" * (length // 4 + 1))[:length]
+                other = text[:pos] + ("Z" if text[pos] != "Z" else "Y") + text[pos + 1:]
+                extra = {"size": str(length), "format": ".x"} if child == "oneBLOB" else None
+                a = msg_recipe(tag, (), [part_recipe(child, "e0", "v"), part_recipe(child, "e1", text, extra)])
+                b = clone(a)
+                b["children"][1]["kw"]["value"] = other
+                yield {"op": "eq", "a": a, "b": b, "rel": "child-long-value-changed:%d@%d" % (length, pos)}
+                yield {"op": "eq", "a": a, "b": clone(a), "rel": "copy"}
+                c = clone(a)
+                c["children"][1]["kw"]["name"] = text
+                d = clone(c)
+                d["children"][1]["kw"]["name"] = other
+                yield {"op": "eq", "a": c, "b": d, "rel": "child-long-attr-changed:%d@%d" % (length, pos)}
+        for k in [k for k in list(base) + list(optional) if k in ("device", "name", "message", "label", "group", "timestamp")][:3]:
+            text = "m" * 300
+            a = msg_recipe(tag, tuple(optional), [part_recipe(child, "e0", "v")])
+            a["kw"][k] = text
+            b = clone(a)
+            b["kw"][k] = text[:299] + "n"
+            yield {"op": "eq", "a": a, "b": b, "rel": "long-attr-changed:" + k}
+    for tag in ("message", "delProperty", "getProperties"):
+        a = msg_recipe(tag, tuple(MSGS[tag][2]))
+        for k in list(a["kw"]):
+            if k in ("version",):
+                continue
+            a2 = clone(a); a2["kw"][k] = "w" * 200
+            b2 = clone(a2); b2["kw"][k] = "w" * 199 + "v"
+            yield {"op": "eq", "a": a2, "b": b2, "rel": "long-attr-changed:" + k}
     # int vs str rendering of an attribute: same wire view, must be equal
     a = msg_recipe("setBLOBVector", (), [part_recipe("oneBLOB", "e", "QUJD", {"size": 3})])
     b = msg_recipe("setBLOBVector", (), [part_recipe("oneBLOB", "e", "QUJD", {"size": "3"})])
